@@ -72,8 +72,11 @@ func (i *interpreter) assume(c *Term) {
 		i.addPC(c)
 		return
 	}
-	if !i.feasible(c) {
-		i.abort("infeasible", "assumption makes the path infeasible")
+	i.flushAsserts()
+	if i.underModel(c) != 1 {
+		if !i.feasibleFetch(c) {
+			i.abort("infeasible", "assumption makes the path infeasible")
+		}
 	}
 	i.addPC(c)
 }
@@ -451,6 +454,9 @@ func init() {
 	}
 	harnessAPI["vpKnown"] = func(fr *frame, args []value) value {
 		id, _ := args[0].(string)
+		if !fr.i.replaying() {
+			fr.i.flushAsserts()
+		}
 		fr.i.path.known = append(fr.i.path.known, knownRegion{id: id, cond: args[1]})
 		return nil
 	}
